@@ -188,8 +188,8 @@ class Check:
         n_ob = len(ded)
         n_dis = sum(1 for o in ded if o.status == "discharged")
         level = self.level
-        if level == "proof" and (n_dis != n_ob or n_ob == 0):
-            level = "other"
+        if level == "proof" and (n_dis != n_ob or n_ob == 0 or self.known_hits):
+            level = "other"       # a recorded finding of this property is present on this tree: the property is not proved
         by_backend = {}
         for o in ded:
             b = by_backend.setdefault(o.backend or "-", {"obligations": 0, "solver_s": 0.0})
